@@ -22,6 +22,7 @@ from sa.rules import pitfall as PT
 from sa.rules import table as TB
 from sa.rules import typeflow as T
 from sa.rules import visit as V
+from sa.rules import wrap as W
 
 SPECS = {}
 
@@ -245,12 +246,19 @@ spec("C17", "Defaults through prose",
      not_decided="the numeric/boolean coercion ladder, end-of-value scan, the arithmetic of the removal offsets themselves (character-level)")
 
 spec("C18", "Wrapping / line length transparent",
-     [T.rule_typeflow, T.rule_wrap_last, coord("rule_coord_defaults", "defaults_utils.extract_default", "defaults_utils.set_default_doc"), det3("emit", "emit.docstring", "emit.class_", "emit.function", "emit.argparse_function"), pit("emit", "emit.docstring", "emit.class_", "emit.function", "emit.argparse_function")],
+     [T.rule_typeflow, T.rule_wrap_last, W.rule_wrap_breaks, W.rule_wrap_cont, W.rule_rejoin_uniform, W.rule_scan_after_rejoin, coord("rule_coord_defaults", "defaults_utils.extract_default", "defaults_utils.set_default_doc"), det3("emit", "emit.docstring", "emit.class_", "emit.function", "emit.argparse_function"), pit("emit", "emit.docstring", "emit.class_", "emit.function", "emit.argparse_function")],
      "Necessary conditions: (TYPEFLOW) the configured width read from the environment passes int()/float() before every numeric sink (width= of textwrap, comparison with "
-     "len()); (WRAP-LAST) no reader of prose (default-sentence scanner) is applied to an already word-wrapped string. (COORD) no position measured on a transformed copy of the prose (strip / casefold / replace change lengths; also through a search helper given a normalising callable) is used to cut the original prose. (DET-3, scoped) no function on this property's code path writes state that outlives the call (module globals/objects, function or class attributes, mutated mutable defaults, memoised mutable results): the conversion is not history-dependent. (LATE-BIND / STALE-CAPTURE / SHARED-DEFAULT / STR-MEMBER, scoped) on this property's code path no closure created per iteration reads its loop variable late, no partial / lambda default captures a name that is rebound before the call, no mutable default is mutated, returned or stored, and no membership test is made against an identifier-like string (a tuple that lost its comma).",
-     floors={"TYPEFLOW": 2, "WRAP-LAST": 5},
-     technique="type-state taint from environment reads to numeric sinks across modules; intra-procedural taint from wrapping calls to reader calls",
-     not_decided="parse(wrapped) == parse(unwrapped) in general")
+     "len()); (WRAP-LAST) no reader of prose (default-sentence scanner) is applied to an already word-wrapped string; (WRAP-BREAKS) every wrapping call breaks lines at "
+     "whitespace only (break_long_words=False, break_on_hyphens=False), because the reader re-joins the lines of an entry with a blank; (WRAP-CONT) in the functions that "
+     "write one documented entry the wrapped text reaches the output through an indenter (or subsequent_indent=): continuation lines at the entry's own column are read as "
+     "new entries; (REJOIN-UNIFORM) the reader's re-join treats every line boundary alike (no decision on what a line contains, no join without a blank); "
+     "(SCAN-AFTER-REJOIN) wherever the default reader runs on a description that is not re-joined yet, a later reader after the re-join exists on every chain into that "
+     "style path. (COORD) no position measured on a transformed copy of the prose (strip / casefold / replace change lengths; also through a search helper given a normalising callable) is used to cut the original prose. (DET-3, scoped) no function on this property's code path writes state that outlives the call (module globals/objects, function or class attributes, mutated mutable defaults, memoised mutable results): the conversion is not history-dependent. (LATE-BIND / STALE-CAPTURE / SHARED-DEFAULT / STR-MEMBER, scoped) on this property's code path no closure created per iteration reads its loop variable late, no partial / lambda default captures a name that is rebound before the call, no mutable default is mutated, returned or stored, and no membership test is made against an identifier-like string (a tuple that lost its comma).",
+     floors={"TYPEFLOW": 2, "WRAP-LAST": 5, "WRAP-BREAKS": 2, "WRAP-CONT": 2, "REJOIN-UNIFORM": 1, "SCAN-AFTER-REJOIN": 3},
+     technique="type-state taint from environment reads to numeric sinks across modules; intra-procedural taint from wrapping calls to reader calls; keyword configuration "
+               "of every wrapping call resolved through partial / alias / parameter chains; consumption walk of wrapped values to indenters; composition order of reader and "
+               "re-join applications with guard-implication over the call chains from parse_docstring",
+     not_decided="parse(wrapped) == parse(unwrapped) as values: character-level scanning inside extract_default, the numpydoc return description's continuation lines, textual unwrapping of the argparse return type")
 
 spec("C19", "gen writes one definition per entry",
      [C.rule_call_getattr, F.rule_file6, F.rule_file6b, O.rule_allpair, O.rule_gen_layout, O.rule_first_match, CLI.rule_cli1, det3("gen", "gen.gen"), pit("gen", "gen.gen")],
